@@ -916,11 +916,17 @@ func queueByteAccounting(c *Ctx, rule string) {
 	// the refusal test
 	okFull := false
 	instrsOfU(push, func(in ssa.Instruction) {
-		iff, ok := in.(*ssa.If)
+		// any ordering comparison (also one returned by a predicate helper rather than branched on)
+		cmpI, ok := in.(*ssa.BinOp)
 		if !ok {
 			return
 		}
-		cm, ok := normCmp(iff.Cond, true)
+		switch cmpI.Op {
+		case token.LSS, token.LEQ, token.GTR, token.GEQ:
+		default:
+			return
+		}
+		cm, ok := normCmp(cmpI, true)
 		if !ok {
 			return
 		}
@@ -1203,13 +1209,14 @@ func runC14(c *Ctx) {
 // converted field or a value found <= it on the edge.
 func cappedBy(v ssa.Value, T string) (string, bool) {
 	isBurst := func(x ssa.Value) (string, bool) {
-		if cv, ok := x.(*ssa.Convert); ok {
+		if cv, ok := origin(x).(*ssa.Convert); ok {
 			if fr, ok := asFieldLoad(cv.X); ok && fr.SName == T {
 				return fr.Field, true
 			}
 		}
 		return "", false
 	}
+	v = origin(v) // the value may be computed by a pure helper
 	if call, ok := v.(*ssa.Call); ok && callName(call) == "math.Min" {
 		for _, a := range call.Call.Args {
 			if f, ok := isBurst(a); ok {
@@ -1428,7 +1435,7 @@ func routerDelayRules(c *Ctx, pc, rpush *ssa.Function) {
 			return false
 		}
 		isTS := func(v ssa.Value) bool {
-			ts, ok := v.(*ssa.Call)
+			ts, ok := origin(v).(*ssa.Call)
 			return ok && ts.Call.IsInvoke() && ts.Call.Method.Name() == "getTimestamp"
 		}
 		return timeOrderFact(ft, isTS, func(v ssa.Value) bool { return sameOrigin(v, ssa.Value(cut)) }) == -1
@@ -1505,6 +1512,14 @@ func routerDelayRules(c *Ctx, pc, rpush *ssa.Function) {
 			}
 			nWait++
 			okShape := false
+			if sub, ok := d.(*ssa.Call); ok && callName(sub) == "(time.Time).Sub" && isTSv(sub.Call.Args[0]) && sameOrigin(sub.Call.Args[1], ssa.Value(cut)) {
+				// timestamp - (T - minDelay): the same quantity
+				for _, ft := range pt.Conds {
+					if timeOrderFact(ft, isTSv, func(v ssa.Value) bool { return sameOrigin(v, ssa.Value(cut)) }) == 1 {
+						okShape = true
+					}
+				}
+			}
 			if sub, ok := d.(*ssa.Call); ok && callName(sub) == "(time.Time).Sub" && sameOrigin(sub.Call.Args[1], nowCall) {
 				if add, ok := origin(sub.Call.Args[0]).(*ssa.Call); ok && callName(add) == "(time.Time).Add" && isTSv(add.Call.Args[0]) &&
 					linOf(add.Call.Args[1], nil).eq(linSym(pc.Params[0].Name()+".minDelay")) {
